@@ -38,6 +38,9 @@ def _spec(kind, x: N.NV, lit: str, lit2: str | None):
     if kind == "is_in":
         other = N.NV(False, z3.StringVal(lit2))
         return N.k_or(N.lift(lambda a, b: a == b, x, L), N.lift(lambda a, b: a == b, x, other))
+    if kind == "is_in_none":
+        # a None literal among the candidates is data too: (x == lit) OR NULL  (Kleene)
+        return N.k_or(N.lift(lambda a, b: a == b, x, L), N.null_of(N.BOOL))
     if kind == "concat":
         return N.lift(lambda a, b: z3.Concat(a, b), x, L)
     if kind == "starts_with":
@@ -63,6 +66,8 @@ def _build(kind, xcol, lit, lit2):
         return H.ColFn(H.ops.not_equal, xcol, LC(lit))
     if kind == "is_in":
         return H.ColFn(H.ops.is_in, xcol, LC(lit), LC(lit2))
+    if kind == "is_in_none":
+        return H.ColFn(H.ops.is_in, xcol, LC(lit), LC(None))
     if kind == "concat":
         return H.ColFn(H.ops.add, xcol, LC(lit))
     if kind == "starts_with":
@@ -80,8 +85,8 @@ def _build(kind, xcol, lit, lit2):
     raise KeyError(kind)
 
 
-KINDS = ["equal", "not_equal", "is_in", "concat", "starts_with", "ends_with", "contains", "replace_all", "case_value", "constant"]
-OP_OF = {"equal": "equal", "not_equal": "not_equal", "is_in": "is_in", "concat": "add", "starts_with": "str_starts_with", "ends_with": "str_ends_with", "contains": "str_contains", "replace_all": "str_replace_all"}
+KINDS = ["equal", "not_equal", "is_in", "is_in_none", "concat", "starts_with", "ends_with", "contains", "replace_all", "case_value", "constant"]
+OP_OF = {"equal": "equal", "not_equal": "not_equal", "is_in": "is_in", "is_in_none": "is_in", "concat": "add", "starts_with": "str_starts_with", "ends_with": "str_ends_with", "contains": "str_contains", "replace_all": "str_replace_all"}
 
 
 def make_run(kind, lit, lit2, backend):
@@ -157,6 +162,7 @@ def make_replayer(kind, lit, lit2, backend):
             "equal": lambda: None if xv is None else xv == lit,
             "not_equal": lambda: None if xv is None else xv != lit,
             "is_in": lambda: None if xv is None else xv in (lit, lit2),
+            "is_in_none": lambda: None if xv is None else (True if xv == lit else None),
             "concat": lambda: None if xv is None else xv + lit,
             "starts_with": lambda: None if xv is None else xv.startswith(lit),
             "ends_with": lambda: None if xv is None else xv.endswith(lit),
@@ -192,7 +198,7 @@ def obligations(tier):
                 fns = [disp[backend]]
                 if kind in OP_OF:
                     op = H.ALL_OPS[OP_OF[kind]]
-                    sig = {"is_in": (String(), H.types_mod.Const(String()), H.types_mod.Const(String())), "contains": (String(), H.types_mod.Const(String()), H.types_mod.Const(Bool()), H.types_mod.Const(Bool())), "replace_all": (String(), H.types_mod.Const(String()), H.types_mod.Const(String()))}.get(kind, (String(), H.types_mod.Const(String())))
+                    sig = {"is_in": (String(), H.types_mod.Const(String()), H.types_mod.Const(String())), "is_in_none": (String(), H.types_mod.Const(String()), H.types_mod.Const(String())), "contains": (String(), H.types_mod.Const(String()), H.types_mod.Const(Bool()), H.types_mod.Const(Bool())), "replace_all": (String(), H.types_mod.Const(String()), H.types_mod.Const(String()))}.get(kind, (String(), H.types_mod.Const(String())))
                     f = H.impl_function(bcls[backend], op, sig)
                     if f:
                         fns.append(H.fn_info(f))
